@@ -4,7 +4,8 @@ step-exec.c -> coq/gen/Gen_Kill.v  (module RobsdGen.Gen_Kill).
 What is extracted (anchored regular expressions; raises when one stops matching):
   * EX_TIMEOUT (step-exec.h), the kill timeout passed to killwaitpg, the polling
     quantum of killwaitpg1 and the shape of its count-down loop;
-  * per function (step_exec, step_fork, killwaitpg, killwaitpg1, sighandler,
+  * the handshake timeout passed to waiteof and waiteof's polling quantum;
+  * per function (step_exec, step_fork, waiteof, killwaitpg, killwaitpg1, sighandler,
     siginstall, exitstatus, step_timeout) the list of the calls/statements the model
     of KillDefs.v transcribes, in textual order, with their relevant arguments.
 The Coq side states `Gen_Kill.calls_<fn> = KillDefs.model_calls_<fn>` (by
@@ -74,6 +75,11 @@ PATTERNS = [
     ('countdown', r'timoms\s*-=\s*\(int\)\s*slpms\s*;'),
     ('if-timoms', r'\bif\s*\(\s*timoms\s*(<=|<)\s*0\s*\)'),
     ('slpms', r'unsigned\s+int\s+slpms\s*=\s*(\d+)\s*;'),
+    ('read', r'\bread\s*\(\s*fd\s*,\s*buf\s*,'),
+    ('n==', r'\bif\s*\(\s*n\s*==\s*(-?\d+)\s*\)'),
+    ('errno==', r'\bif\s*\(\s*errno\s*==\s*(\w+)\s*\)'),
+    ('warn', r'\bwarn\s*\(\s*"(\w+)"'),
+    ('break', r'\bbreak\s*;'),
     ('return', r'\breturn\s+([^;]+);'),
     ('continue', r'\bcontinue\s*;'),
     ('gotsig=', r'\bgotsig\s*=\s*(\w+)\s*;'),
@@ -84,7 +90,7 @@ PATTERNS = [
     ('config_value', r'config_value\s*\(\s*c->config\s*,\s*"([\w-]+)"\s*,\s*(\w+)\s*,\s*(\d+)\s*\)'),
 ]
 
-FUNCS = ['step_exec', 'exitstatus', 'killwaitpg', 'killwaitpg1', 'siginstall', 'sighandler', 'step_fork',
+FUNCS = ['step_exec', 'exitstatus', 'waiteof', 'killwaitpg', 'killwaitpg1', 'siginstall', 'sighandler', 'step_fork',
          'step_timeout']
 
 
@@ -94,7 +100,7 @@ def calls_of(body):
         for m in re.finditer(pat, body):
             args = [re.sub(r'\s+', ' ', (g or '').strip()) for g in m.groups()]
             args = [a for a in args if a != '']
-            if name == 'return' and not re.search(r'^-?\d+$|[A-Z_]{3,}|config_value', args[0]):
+            if name == 'return' and not re.search(r'^-?\d+$|[A-Z_]{3,}|config_value|\?', args[0]):
                 args = ['_']        # a local variable: its name does not matter
             found.append((m.start(), name + ''.join(' ' + a for a in args)))
     found.sort()
@@ -145,6 +151,10 @@ def generate(repo):
     if len(we) != 1:
         raise ValueError('step_fork: waiteof call not found')
     out.append('Definition pipe_timeout_ms : Z := %d%%Z.' % int(we[0].split()[1]))
+    sl = [c for c in calls['waiteof'] if c.startswith('slpms ')]
+    if len(sl) != 1:
+        raise ValueError('waiteof: polling quantum not found')
+    out.append('Definition pipe_poll_ms : Z := %d%%Z.' % int(sl[0].split()[1]))
     out.append('')
     for f in FUNCS:
         out.append('Definition calls_%s : list string :=' % f)
